@@ -103,6 +103,24 @@ func describeD(v ssa.Value, d int) string {
 	return "_"
 }
 
+// isNonNil: syntactically non-nil address values (allocations, globals, interior addresses, the receiver)
+func (fr *Frame) isNonNil(v ssa.Value) bool {
+	switch x := v.(type) {
+	case *ssa.Alloc, *ssa.Global, *ssa.FieldAddr, *ssa.IndexAddr, *ssa.Function, *ssa.MakeClosure, *ssa.MakeMap, *ssa.MakeChan:
+		return true
+	case *ssa.Parameter:
+		return fr.nonNilParams[x]
+	}
+	return false
+}
+
+func (fr *Frame) nilCheck(v ssa.Value, text string, pos token.Pos) {
+	if fr.isNonNil(v) {
+		return
+	}
+	fr.safety("nil", text, pos, "(not (= "+fr.val(v).C[0]+" 0))")
+}
+
 func (fr *Frame) safety(kind, text string, pos token.Pos, cond string) {
 	if !fr.q.opts.Safety {
 		return
@@ -156,6 +174,7 @@ func (fr *Frame) execInstr(ins ssa.Instruction) {
 			fr.store(st, a, elem, zeroVal(elem))
 		}
 		fr.vals[x] = Val{C: []string{a}}
+		fr.locals = append(fr.locals, localCell{ins: x, addr: a})
 	case *ssa.BinOp:
 		fr.setVal(x, fr.binop(x))
 	case *ssa.UnOp:
@@ -190,7 +209,7 @@ func (fr *Frame) execInstr(ins ssa.Instruction) {
 		fr.vals[x] = Val{C: sv.C[off : off+n]}
 	case *ssa.FieldAddr:
 		p := fr.val(x.X).C[0]
-		fr.safety("nil", describe(x), x.Pos(), fmt.Sprintf("(not (= %s 0))", p))
+		fr.nilCheck(x.X, describe(x), x.Pos())
 		stt := underlying(x.X.Type().(*types.Pointer).Elem()).(*types.Struct)
 		off := 0
 		for i := 0; i < x.Field; i++ {
@@ -233,8 +252,7 @@ func (fr *Frame) execInstr(ins ssa.Instruction) {
 	case *ssa.Call:
 		fr.call(x)
 	case *ssa.Store:
-		p := fr.val(x.Addr).C[0]
-		fr.safety("nil", "*"+describe(x.Addr), x.Pos(), fmt.Sprintf("(not (= %s 0))", p))
+		fr.nilCheck(x.Addr, "*"+describe(x.Addr), x.Pos())
 		elem := underlying(x.Addr.Type()).(*types.Pointer).Elem()
 		fr.storeVia(x.Addr, elem, fr.val(x.Val))
 		if q.opts.OnStore != nil {
@@ -521,8 +539,7 @@ func (fr *Frame) unop(x *ssa.UnOp) {
 	a := fr.val(x.X)
 	switch x.Op {
 	case token.MUL:
-		p := a.C[0]
-		fr.safety("nil", "*"+describe(x.X), x.Pos(), fmt.Sprintf("(not (= %s 0))", p))
+		fr.nilCheck(x.X, "*"+describe(x.X), x.Pos())
 		v := fr.loadVia(x.X, x.Type())
 		fr.setVal(x, v)
 		fr.typeInv(fr.vals[x], x.Type(), fr.cur.reach, fr.cur.st)
@@ -758,7 +775,7 @@ func (fr *Frame) indexAddr(x *ssa.IndexAddr) {
 		fr.setVal(x, Val{C: []string{sAdd(base.C[0], sMulC(i, cellsOf(t.Elem())))}})
 	case *types.Pointer:
 		arr := underlying(t.Elem()).(*types.Array)
-		fr.safety("nil", describe(x.X), x.Pos(), "(not (= "+base.C[0]+" 0))")
+		fr.nilCheck(x.X, describe(x.X), x.Pos())
 		fr.safety("idx", describe(x), x.Pos(), fmt.Sprintf("(and (<= 0 %s) (< %s %d))", i, i, arr.Len()))
 		fr.setVal(x, Val{C: []string{sAdd(base.C[0], sMulC(i, cellsOf(arr.Elem())))}})
 	default:
@@ -855,7 +872,7 @@ func (fr *Frame) slice(x *ssa.Slice) {
 		} else {
 			mx = n
 		}
-		fr.safety("nil", describe(x.X), x.Pos(), "(not (= "+base.C[0]+" 0))")
+		fr.nilCheck(x.X, describe(x.X), x.Pos())
 		fr.safety("slice", describe(x), x.Pos(), fmt.Sprintf("(and (<= 0 %s) (<= %s %s) (<= %s %s) (<= %s %s))", lo, lo, hi, hi, mx, mx, n))
 		stride := cellsOf(arr.Elem())
 		fr.setVal(x, Val{C: []string{sAdd(base.C[0], sMulC(lo, stride)), "(- " + hi + " " + lo + ")", "(- " + mx + " " + lo + ")"}})
